@@ -92,7 +92,7 @@ def run(ctx):
         if len(ups) != 1:
             continue
         up = ('await', ('call', ups[0][1], ups[0][2], ups[0][3].get('id')))
-        is_none = next((t for a, t in o.st.pc if a == ('is', ('variant', up, 'Ok', 0), 'None')), None)
+        is_none = absx.pc_variant(o.st.pc, lambda v: v == ('variant', up, 'Ok', 0), 'None')
         searches = [e for e in o.st.ev if e[0] == 'call' and e[1].endswith('Ldap::streaming_search')]
         removes = [e for e in o.st.ev if e[0] == 'call' and e[1].endswith('Vec::<T, A>::remove')]
         parses = [e for e in o.st.ev if e[0] == 'call' and e[1] == 'ldap3::controls_impl::RawControl::parse']
